@@ -176,6 +176,23 @@ def _run_case(ctx, case, op):
                   got=obs.show(got) if got is not None else None, detail=problems, nontrivial=bool(want))
         if obs.cells(f) != A:
             ctx.judge(False, case, mech="C06:operand-changed", expected=obs.show(A), got=obs.show(obs.cells(f)))
+    elif op == "join_markup":
+        # plain-str items that happen to hold an escape sequence are text like any other (that is
+        # what + does with them); judged on the result's text and length only
+        sep, items = case["sep"], case["items"]
+        vsep = obs.build(sep)
+        want = "".join(t for t, _ in sep).join(items)
+        try:
+            r = vsep.join(list(items))
+            got = [r.s, len(r)]
+        except Exception as e:  # noqa
+            got = repr(e)
+        plus = vsep.copy()
+        acc = None
+        for it in items:
+            acc = it if acc is None else acc + plus + it
+        ctx.judge(got == [want, len(want)], case, ("C06", "join_markup", repr(case)), "C06:join-parses-plain-str-as-markup",
+                  [want, len(want)], got, "a + sep + b gives %r" % (getattr(acc, "s", acc),))
     elif op == "join":
         sep, items = case["sep"], case["items"]
         S = obs.spec_cells(sep)
@@ -244,6 +261,10 @@ def run(ctx):
         if ctx.mine(n):
             run_case(ctx, {"op": "iterate", "spec": spec})
             ctx.count("iterations")
+    if ctx.shard[0] == 0:
+        for items in (["\x1b[31mhi", "x"], ["\x1b[31m"], ["a\x1b[2Jb", "c"], ["p", "q\x1b[0m"]):
+            run_case(ctx, {"op": "join_markup", "sep": [[", ", {"fg": 32}]], "items": items})
+            ctx.count("joins_of_plain_str_with_escape_sequences")
     small = list(obs.layouts(3, 2)) if not quick else list(obs.layouts(2, 2))
     strs = ["", "x", "xy"]
     for la in small:
